@@ -4,7 +4,8 @@ package main
 // byte-level model Pandora.Model.C07 rests on (every identifier of this file carries the prefix `ammodec`):
 //
 //	components/providers/http/decoders/uri.go      how uriDecoder gets its lines (bufio.Scanner: only Scan/Err/Text, never
-//	                                               Buffer/Split/Bytes => token limit bufio.MaxScanTokenSize, read from the
+//	                                               Split/Bytes; token limit = the constant max of `Buffer(nil, max)` when every
+//	                                               construction is configured so, else bufio.MaxScanTokenSize read from the
 //	                                               toolchain's bufio), the byte that marks a header line, the target/tag
 //	                                               separator, the method given to Ammo.Setup, where the ammo's header map
 //	                                               comes from (a clone of the accumulator)
@@ -43,7 +44,7 @@ func init() {
 		pkgPath:   "github.com/yandex/pandora/components/providers/http/decoders",
 		module:    "AmmoDec",
 		namespace: "Pandora.Gen.AmmoDec",
-		imports:   []string{"Pandora.Model.C07", "Pandora.Model.C07Heap"},
+		imports:   []string{"Pandora.Model.C07", "Pandora.Model.C07Heap", "Pandora.Model.C07Go"},
 		extra:     ammodecExtra,
 	}
 }
@@ -289,9 +290,40 @@ func (x *ammodecX) reader(p *packages.Package, what string, scanLimit int64, fds
 	}
 	switch {
 	case len(methods["Scanner.Scan"]) > 0:
-		// a Scanner with the default split function and the default buffer: tokens are lines, limit MaxScanTokenSize
-		if !isSubset("Scanner.Scan", "Scanner.Err", "Scanner.Text") || len(methods["Scanner.Text"]) == 0 {
+		// a Scanner with the default split function: tokens are lines.  Its limit is MaxScanTokenSize with the default
+		// buffer, or the constant `max` of `Buffer(nil, max)` when EVERY construction of a Scanner configures it so
+		// (the same max everywhere; the initial buffer must be nil: a caller-supplied buffer could be shared).
+		if !isSubset("Scanner.Scan", "Scanner.Err", "Scanner.Text", "Scanner.Buffer") || len(methods["Scanner.Text"]) == 0 {
 			return other()
+		}
+		if bufs := methods["Scanner.Buffer"]; len(bufs) > 0 {
+			max := ""
+			for _, c := range bufs {
+				if len(c.node.Args) != 2 || len(c.args) != 2 || c.args[1] == "" || (max != "" && max != c.args[1]) {
+					return other()
+				}
+				if id, ok := ast.Unparen(c.node.Args[0]).(*ast.Ident); !ok || id.Name != "nil" {
+					return other()
+				}
+				max = c.args[1]
+			}
+			// every function that creates a Scanner must configure it
+			closure := ammodecClosure(p, append(append([]*ast.FuncDecl{}, fds...), construct...))
+			for _, fd := range closure {
+				news, cfgs := 0, 0
+				for _, c := range ammodecCalls(p, fd) {
+					switch c.name {
+					case "bufio.NewScanner":
+						news++
+					case "Scanner.Buffer":
+						cfgs++
+					}
+				}
+				if news != cfgs {
+					return fmt.Sprintf("LineReader.other %q", "Scanner.Buffer on some constructions only")
+				}
+			}
+			return "LineReader.scanner " + max
 		}
 		return fmt.Sprintf("LineReader.scanner %d", scanLimit)
 	case len(methods["Reader.ReadString"]) > 0:
@@ -627,6 +659,7 @@ func ammodecExtra(t *tr) string {
 			w("/-- `h[0] != …` -/\ndef hdrOpen : Nat := %s\n\n", x.one(up, fd, "DecodeHeader h[0] !=", ammodecCmpConsts(up, fd, "_[0]", token.NEQ)))
 			w("/-- `h[len(h)-1] != …` -/\ndef hdrClose : Nat := %s\n\n", x.one(up, fd, "DecodeHeader h[len(h)-1] !=", ammodecCmpConsts(up, fd, "_[len(_)-1]", token.NEQ)))
 			w("/-- separator of `strings.Cut(h, …)` -/\ndef hdrSep : List UInt8 := %s\n\n", x.one(up, fd, "DecodeHeader strings.Cut separator", ammodecSepArgs(calls)))
+			w("%s", x.translateFn(up, fd, "decodeHeaderG", "`util.DecodeHeader`, statement by statement"))
 		}
 	}
 
@@ -639,6 +672,7 @@ func ammodecExtra(t *tr) string {
 			calls := ammodecCalls(up, fd)
 			w("/-- regenerated from `decoders/uripost/decoder.go` `DecodeURI`: the separator given to strings.Split / Join -/\ndef decodeURISep : List UInt8 := %s\n\n", x.one(up, fd, "DecodeURI separator", ammodecSepArgs(calls)))
 			w("/-- `len(parts) < …` -/\ndef decodeURIMinParts : Nat := %s\n\n", x.one(up, fd, "DecodeURI len(parts) <", ammodecCmpConsts(up, fd, "len(_)", token.LSS)))
+			w("%s", x.translateFn(up, fd, "decodeURIG", "`uripost.DecodeURI`, statement by statement"))
 		}
 	}
 
@@ -650,6 +684,7 @@ func ammodecExtra(t *tr) string {
 		} else {
 			calls := ammodecCalls(rp, fd)
 			w("/-- regenerated from `decoders/raw/decoder.go` `DecodeHeader`: separator between size and tag -/\ndef rawHeaderSep : List UInt8 := %s\n\n", x.one(rp, fd, "raw.DecodeHeader separator", ammodecSepArgs(calls)))
+			w("%s", x.translateFn(rp, fd, "rawDecodeHeaderG", "`raw.DecodeHeader`, statement by statement"))
 		}
 	}
 
